@@ -44,6 +44,20 @@ def generate(tier, seed):
                 cases.append(case("eng", sp, ad, "-", steps))
                 dist["adapters"][ak] = dist["adapters"].get(ak, 0) + 1
                 dist["configs"] += 1
+    # a reload that FAILS (policy file unavailable) must not unmark a filtered enforcer nor change its policy,
+    # and save_policy must still be refused afterwards
+    dist["failed_reload"] = 0
+    p_, p2_, g_, g2_ = stores[0]
+    lines = []
+    for i in range(4):
+        for key, l in (("p", p_), ("g", g_), ("p2", p2_), ("g2", g2_)):
+            if i < len(l):
+                lines.append([key] + l[i])
+    for fp, fg in [(["alice"], []), (["zed"], ["zed"]), ([], ["alice"]), ([], [])]:
+        for reload in ("LD", "LF:%s:%s" % (enc_rule(["bob"]), enc_rule([]))):
+            steps = ["LF:%s:%s" % (enc_rule(fp), enc_rule(fg)), "?ga:p", "?ga:g", "?if", "FX", reload, "?ga:p", "?ga:g", "?if", "FO", "SV", "?rv"]
+            cases.append(case("eng", sp, adapter_F(lines), "-", steps))
+            dist["failed_reload"] += 1
     # constructor with a pre-filtered file adapter skips the initial load
     lines = [["p"] + r for r in P]
     cases.append(case("eng", sp, adapter_F(lines, True), "-", ["?ga:p", "?if", "SV", "?rv"]))
